@@ -15,7 +15,7 @@ DEFAULT_NOTE = "Trusted: Coq 8.16.1 kernel, extraction (ExtrOcamlBasic only), OC
 
 GENERIC = {
  "C02": "Coq trace theorems over the ledger-event log of every reachable state (Reach_T: each request id issued at most once; exactly one of earn+tax / refund / nothing per request, to the issuing consumer or the addressed provider, amounts tax = floor(fee*rate)) + per-handler debit-equals-issued-fees + correspondence on bank, oblig, req + settlement monitor",
- "C03": "Coq invariant for all reachable states (deposit account = sum of binding deposits, all balances >= 0, supply = sum of balances) + per-step theorems (refund iff unavailable, non-zero and waiting period over; deposits only grow by owner-paid amounts; slash burns exactly the amount) + correspondence on bank, bind",
+ "C03": "Coq invariant for all reachable states (deposit account = sum of binding deposits, all balances >= 0, supply = sum of balances; no stored withdrawal address is a module account, which is what keeps withdrawn earnings out of the custody account) + per-step theorems (refund iff unavailable, non-zero and waiting period over; deposits only grow by owner-paid amounts; slash burns exactly the amount) + correspondence on bank, bind",
  "C04": "Coq trace theorems (slash at most once per request, only with a time-out of a paid request or a malformed answer, every such failure slashes) + per-call slash specification (amount = floor(deposit*fraction), deposit/account/supply reduced, auto-disable iff below minimum) + correspondence on bind, bank, slash + slash-event monitor",
  "C05": "Coq per-handler authority theorems (success implies the rightful signer; module-created contexts cannot be driven by messages), wrong signer => state unchanged, only the signer is debited (bounded), EndBlock debits only consumers of due running contexts + correspondence on res, bank + wrong-signer stream",
  "C06": "Coq exact case analysis of the new-batch handler (not running / total reached / skipped / paused for funds / issued to exactly the eligible providers in order, fee = filter price <= cap, consumer debited the sum) incl. the whole-EndBlock version + correspondence on req, ctx, bank + independent recomputation monitor; histories include governance parameter changes (op setparams; corpus witness W18: QoS above the timeout after the maximum request timeout was lowered)",
@@ -32,7 +32,7 @@ GENERIC = {
  "C17": "Coq refinement of every query code path (gRPC and legacy) to a comprehension over the state, hypotheses discharged for reachable states + differential check of all queries on sampled existing/non-existing arguments against raw store scans and the extracted model",
  "C18": "Coq theorems over the key layer regenerated from types/keys.go on every run (injectivity per family, family disjointness, exactness of every prefix scan, refutations where a scan is not exact) and over the ID functions (length, round trip, injectivity) + pure key stream (45k cases) against the real functions",
  "C19": "Coq theorems on the modelled export / zero-height preparation / import (every pending fee to its consumer, every earning to its provider, escrow emptied, contexts reset, export validates, export-import-export round trip, indexes rebuilt) + differential check of the real export-validate-JSON-import pipeline into a second app",
- "C20": "Coq theorem that no message handler and no call inside EndBlock reaches a Panic branch or a dropped error from a reachable state (under the recorded exclusion X-K1) + panic-site census of the source against a reviewed baseline + double replay in fresh app instances comparing store digests after every step",
+ "C20": "Coq theorem that no message handler and no call inside EndBlock reaches a Panic branch or a dropped error from a reachable state (under the recorded exclusions X-K1 and X-K6, each with a refutation witness and an input-only form; supply never increases; every amount the module adds or compares is below 2^255 when the genesis supply is) + panic-site census of the source against a reviewed baseline + double replay in fresh app instances comparing store digests after every step",
 }
 
 PENDING = "theorem file coq/Properties/%s.v is not in the tree yet (in progress this session); no check is registered until it is"
